@@ -397,16 +397,16 @@ func (c *Ctx) typeInv(term string, t types.Type) string {
 func (c *Ctx) strInv(term string) string {
 	if c.mode == "bv" {
 		// 0 <= off, len and off+len does not wrap (lengths below 2^62)
-		return fmt.Sprintf("(and (bvult (slen %s) (_ bv4611686018427387904 64)) (bvult (soff %s) (_ bv4611686018427387904 64)))", term, term)
+		return fmt.Sprintf("(and (bvult (slen %s) (_ bv140737488355328 64)) (bvult (soff %s) (_ bv140737488355328 64)))", term, term)
 	}
-	return fmt.Sprintf("(and (<= 0 (soff %s)) (<= 0 (slen %s)) (<= (slen %s) 4611686018427387904))", term, term, term)
+	return fmt.Sprintf("(and (<= 0 (soff %s)) (<= 0 (slen %s)) (<= (slen %s) 140737488355328))", term, term, term)
 }
 
 func (c *Ctx) sliceInv(term string) string {
 	if c.mode == "bv" {
-		return fmt.Sprintf("(and (bvule (xlen %s) (xcap %s)) (bvult (xcap %s) (_ bv4611686018427387904 64)) (bvult (xoff %s) (_ bv4611686018427387904 64)) (=> (= (sbase %s) 0) (= (xcap %s) (_ bv0 64))))", term, term, term, term, term, term)
+		return fmt.Sprintf("(and (bvule (xlen %s) (xcap %s)) (bvult (xcap %s) (_ bv140737488355328 64)) (bvult (xoff %s) (_ bv140737488355328 64)) (=> (= (sbase %s) 0) (= (xcap %s) (_ bv0 64))))", term, term, term, term, term, term)
 	}
-	return fmt.Sprintf("(and (<= 0 (xoff %s)) (<= 0 (xlen %s)) (<= (xlen %s) (xcap %s)) (<= (xcap %s) 4611686018427387904) (>= (sbase %s) 0) (=> (= (sbase %s) 0) (= (xcap %s) 0)))", term, term, term, term, term, term, term, term)
+	return fmt.Sprintf("(and (<= 0 (xoff %s)) (<= 0 (xlen %s)) (<= (xlen %s) (xcap %s)) (<= (xcap %s) 140737488355328) (>= (sbase %s) 0) (=> (= (sbase %s) 0) (= (xcap %s) 0)))", term, term, term, term, term, term, term, term)
 }
 
 func and(parts ...string) string {
@@ -667,6 +667,11 @@ func (c *Ctx) arith(op string, x, y string, t types.Type, yT types.Type) (term s
 	case ">>":
 		if k, ok := constInt(y); ok && k.IsInt64() && k.Int64() >= 0 && k.Int64() < 64 {
 			return fmt.Sprintf("(div %s %s)", x, pow2(uint(k.Int64())).String()), "", ""
+		}
+		if !signed {
+			// variable shift count: x div 2^y for y < width, 0 beyond
+			c.declPow2()
+			return fmt.Sprintf("(ite (and (<= 0 %s) (< %s %d)) (div %s (pow2 %s)) 0)", y, y, bits, x, y), "", ""
 		}
 	case "&":
 		// K & (1 << s): expands over the set bits of the constant K
